@@ -365,3 +365,87 @@ func systemCookielessCallback(r *Run, tag string) {
 		}
 	}
 }
+
+// systemReplay: a complete login through the filter as assembled at start-up (real factory and stores; with and without a
+// cookie_name_prefix; memory and Redis), then the SAME callback again: the login state was consumed, so the replay causes
+// no second exchange and no new authenticated session - and the session of the first login goes on working.
+func systemReplay(r *Run, tag string) {
+	for _, prefix := range []string{"", "app1"} {
+		for _, useRedis := range []bool{false, true} {
+			if r.unknownViolations() > 0 {
+				return
+			}
+			idp := newFakeIDP()
+			ctx, cancel := context.WithCancel(context.Background())
+			oc := &oidcv1.OIDCConfig{ClientId: "sysclient", ClientSecretConfig: &oidcv1.OIDCConfig_ClientSecret{ClientSecret: "syssecret"}, CookieNamePrefix: prefix,
+				CallbackUri: "https://app.example.com/callback", AuthorizationUri: "https://idp.example.com/auth", TokenUri: idp.srv.URL + "/token",
+				Scopes: []string{"openid"}, IdToken: &oidcv1.TokenConfig{Header: "authorization", Preamble: "Bearer"}, JwksConfig: &oidcv1.OIDCConfig_Jwks{Jwks: "x"}}
+			var mr *miniredis.Miniredis
+			if useRedis {
+				var err error
+				mr, err = miniredis.Run()
+				must(err)
+				oc.RedisSessionStoreConfig = &oidcv1.RedisConfig{ServerUri: "redis://" + mr.Addr()}
+			}
+			cfg := &configv1.Config{Chains: []*configv1.FilterChain{{Name: "c", Filters: []*configv1.Filter{{Type: &configv1.Filter_Oidc{Oidc: oc}}}}}}
+			f := oidc.NewSessionStoreFactory(cfg)
+			must(f.PreRun())
+			filter := server.NewExtAuthZFilter(cfg, internal.NewTLSConfigPool(ctx), staticJWKS{}, f)
+			check := func(path, cookie string) *envoy.CheckResponse {
+				h := map[string]string{}
+				if cookie != "" {
+					h["cookie"] = cookie
+				}
+				resp, err := filter.Check(context.Background(), httpReq("https", "app.example.com", path, "", h))
+				if err != nil || resp == nil {
+					return &envoy.CheckResponse{}
+				}
+				return resp
+			}
+			where := map[string]any{"cookie_name_prefix": prefix, "redis": useRedis}
+			orig := "/orders/42?tab=items"
+			r1 := check(orig, "")
+			loc, _ := hdrValue(r1.GetDeniedResponse().GetHeaders(), "location")
+			sck, _ := hdrValue(r1.GetDeniedResponse().GetHeaders(), "set-cookie")
+			u, _ := url.Parse(loc)
+			cs := (&http.Response{Header: http.Header{"Set-Cookie": []string{sck}}}).Cookies()
+			if u != nil && len(cs) == 1 && u.Query().Get("state") != "" {
+				cookie := cs[0].Name + "=" + cs[0].Value
+				answer := func() {
+					idp.set(idpAnswer{Kind: "body", TokenType: "Bearer", Access: "sys-access",
+						ID: mintToken(tokSpec{Mode: "good", Exp: time.Now().Unix() + 600, Aud: "sysclient", Nonce: u.Query().Get("nonce"), Sub: "u", Extra: "replay"})})
+				}
+				answer()
+				idp.take()
+				cbPath := "/callback?code=c1&state=" + u.Query().Get("state")
+				r2 := check(cbPath, cookie)
+				first := idp.take()
+				if loc2, _ := hdrValue(r2.GetDeniedResponse().GetHeaders(), "location"); loc2 != "https://app.example.com"+orig || len(first) != 1 {
+					where["answer"] = showResp(r2, nil)
+					r.Violate(tag+" system level: a login does not complete (one exchange, return to the requested URL)", where)
+				} else {
+					answer()
+					r3 := check(cbPath, cookie)
+					again := idp.take()
+					loc3, _ := hdrValue(r3.GetDeniedResponse().GetHeaders(), "location")
+					if len(again) > 0 || loc3 == "https://app.example.com"+orig {
+						where["answer_to_the_replay"] = showResp(r3, nil)
+						where["token_requests_caused_by_the_replay"] = len(again)
+						r.Violate(tag+" a successful code exchange did not consume the login state: the replayed callback was exchanged (or completed) a second time", where)
+					}
+					if r4 := check(orig, cookie); r4.GetStatus().GetCode() != 0 {
+						where["answer"] = showResp(r4, nil)
+						r.Violate(tag+" system level: the session of a completed login is not honoured after its callback was replayed", where)
+					}
+				}
+			}
+			r.Dist["system-level:callback-replay"]++
+			r.Case(fmt.Sprintf("system-replay|%s|%v", prefix, useRedis))
+			cancel()
+			idp.srv.Close()
+			if mr != nil {
+				mr.Close()
+			}
+		}
+	}
+}
